@@ -13,3 +13,4 @@ for k, v in cnt.most_common():
     ex = next(f for f in ctx.failures if json.dumps(f["features"], sort_keys=True) == k)
     print(v, k); print("     e.g.", ex["description"][:500])
 print("cases", ctx.evaluations, "failures", len(ctx.failures))
+print("stats", dict(sorted(ctx.stats.items())))
